@@ -137,6 +137,9 @@ func NewWithStore(cfg Config, st *Store) (*World, error) {
 	if sig == "" {
 		sig = RSASHA256
 	}
+	if sig == "(empty)" {
+		sig = ""
+	}
 	idpc := &provider.IdentityProviderConfig{
 		SignatureAlgorithm:     sig,
 		EncryptionAlgorithm:    cfg.EncryptionAlg,
